@@ -296,6 +296,9 @@ def containers_and_float(tier):
     arith = []
     for u, v in itertools.product(leaves, repeat=2):
         arith += [p.Sum((u, v)), p.Product((u, v)), p.Quotient(u, v), p.Power(u, 2), p.Sum((p.Quotient(u, 7), v))]
+    # exact quotient nodes (Rational) of integers and of variables, alone and inside sums
+    from pymbolic.rational import Rational
+    arith += [Rational(1, 3), Rational(-7, 2), Rational(x, 3), Rational(y, -4), p.Sum((Rational(1, 3), x)), p.Product((Rational(x, 5), 2))]
     fenvs = [dict(x=2, y=5), dict(x=-1.5, y=0.25), dict(x=3, y=-4)]
 
     def fref(e, env):
@@ -310,15 +313,17 @@ def containers_and_float(tier):
             for c in e.children:
                 r = r * fref(c, env)
             return r
-        if isinstance(e, p.Quotient):
+        if isinstance(e, (p.Quotient, Rational)):
             return fref(e.numerator, env) / fref(e.denominator, env)
         if isinstance(e, p.Power):
             return fref(e.base, env) ** fref(e.exponent, env)
         raise KeyError
-    for e in arith[:: (1 if tier == "thorough" else 2)]:
+    from pymbolic.mapper.evaluator import CachedFloatEvaluationMapper
+    for e in arith[:: (1 if tier == "thorough" else 2)] + arith[-6:]:
         for env in fenvs:
             want = outcome.run(lambda: fref(e, env))
-            for name, fn in (("evaluate_to_float", lambda: evaluate_to_float(e, env)), ("FloatEvaluationMapper", lambda: FloatEvaluationMapper(env)(e))):
+            for name, fn in (("evaluate_to_float", lambda: evaluate_to_float(e, env)), ("FloatEvaluationMapper", lambda: FloatEvaluationMapper(env)(e)),
+                             ("CachedFloatEvaluationMapper", lambda: CachedFloatEvaluationMapper(env)(e))):
                 got = outcome.run(fn)
                 b.case(("float", repr(e), name, env["x"]))
                 ok = (got[0] == "exc" and want[0] == "exc") or (got[0] == "val" and want[0] == "val" and abs(got[1] - want[1]) <= 1e-12 * (1 + abs(want[1])))
